@@ -138,7 +138,7 @@ func propC13IllegalSize(t *rapid.T) {
 func mutateMnemonic(t *rapid.T, words []string) (string, string) {
 	w := append([]string(nil), words...)
 	sep := " "
-	kind := rapid.IntRange(0, 8).Draw(t, "mut")
+	kind := rapid.IntRange(0, 10).Draw(t, "mut")
 	label := ""
 	switch kind {
 	case 0:
@@ -174,6 +174,30 @@ func mutateMnemonic(t *rapid.T, words []string) (string, string) {
 		label = "lastword"
 	case 7:
 		label = "identity"
+	case 9:
+		// a word of the sentence cut down to a prefix of itself (the list's words are told apart by their
+		// first four letters, and other tools accept such abbreviations - BIP-39 sentences consist of
+		// whole list words); the reference decides: a prefix that happens to be a list word is a word
+		i := rapid.IntRange(0, len(w)-1).Draw(t, "i")
+		n := rapid.SampledFrom([]int{4, 4, 4, 3, 5, 2, 6}).Draw(t, "prefixLen")
+		if n >= len(w[i]) {
+			n = len(w[i]) - 1
+		}
+		w[i] = w[i][:n]
+		label = "abbreviate"
+	case 10:
+		// one letter of one word changed, doubled or dropped
+		i := rapid.IntRange(0, len(w)-1).Draw(t, "i")
+		j := rapid.IntRange(0, len(w[i])-1).Draw(t, "letter")
+		switch rapid.IntRange(0, 2).Draw(t, "edit") {
+		case 0:
+			w[i] = w[i][:j] + string(rune('a'+rapid.IntRange(0, 25).Draw(t, "to"))) + w[i][j+1:]
+		case 1:
+			w[i] = w[i][:j] + w[i][j:j+1] + w[i][j:]
+		default:
+			w[i] = w[i][:j] + w[i][j+1:]
+		}
+		label = "letter-edit"
 	case 8:
 		// leading/trailing whitespace
 		return pick(t, "lead", []string{" ", "\n", ""}) + strings.Join(w, " ") + pick(t, "trail", []string{" ", "\t\n", ""}), "padded"
